@@ -8,7 +8,8 @@ set -u
 cd "$(dirname "$0")"
 export CARGO_NET_OFFLINE=true
 export VERIF_SEED="${VERIF_SEED:-1}"
-ROOT=/verif
+ROOT="$(pwd)"
+export VERIF_ROOT="$ROOT"
 HARNESS=$ROOT/harness
 TGT="${VERIF_TARGET:-$ROOT/target}"
 SRC="${TCHERAN_SRC:-/repo/src}"
